@@ -79,6 +79,28 @@ def full_opts(opts):
             'symbolcls': opts.get('symbolcls') or '', 'pretty_blade': opts.get('pretty_blade') or ''}
 
 
+def law_event(K, eid, args):
+    """C04: the involutions of x, y and of the library's own product x*y, recorded together."""
+    x, y = args
+    ev = {'id': eid, 'kind': 'law', 'op': 'law', 'raised': '', 'params': []}
+    names = {}
+    try:
+        xy = x * y
+        names = {'x': x, 'y': y, 'xy': xy, 'rx': ~x, 'ry': ~y, 'rxy': ~xy, 'ix': x.involute(), 'iy': y.involute(), 'ixy': xy.involute(),
+                 'cx': x.conjugate(), 'cy': y.conjugate(), 'cxy': xy.conjugate(), 'rrx': ~(~x), 'iix': x.involute().involute(),
+                 'ccx': x.conjugate().conjugate(), 'rix': ~(x.involute())}
+    except Exception as e:   # noqa: BLE001
+        ev['raised'] = type(e).__name__
+        names = {k: x for k in ('x', 'y', 'xy', 'rx', 'ry', 'rxy', 'ix', 'iy', 'ixy', 'cx', 'cy', 'cxy', 'rrx', 'iix', 'ccx', 'rix')}
+    ring, enc = K.encode_mvs(list(names.values()))
+    ev['ring'] = ring
+    for k, e_ in zip(names, enc):
+        ev[k] = e_
+    ev['args'] = [ev['x'], ev['y']]
+    ev['res'] = ev['xy']
+    return ev
+
+
 def run_job(job):
     import kdriver as K
     u, opts = job['u'], job.get('opts', {})
@@ -102,6 +124,11 @@ def run_job(job):
         args = [K.operand(alg, spec, n + 1) for n, spec in enumerate(keylists)]
         signal.alarm(budget)
         try:
+            if op == 'law':
+                ev = law_event(K, eid, args)
+                signal.alarm(0)
+                events.append(ev)
+                continue
             ev = K.op_event(eid, op, args, params, extra=job.get('extra'),
                             witness=(lambda raised: _witness(K, u, alg, op, args, raised)) if job.get('witness') else None)
             signal.alarm(0)
